@@ -56,6 +56,14 @@ def reset_pool():
 TABLE_CLS = None
 
 
+def _select_only(r):
+    """only a SELECT is embedded as a subquery (an upsert's alias, for one, is MySQL's row alias: another meaning)"""
+    d = r.__dict__
+    if d.get("_insert_table") or d.get("_update_table") or d.get("_delete_from") or not d.get("_selects"):
+        raise ValueError("not a SELECT")
+    return r
+
+
 class Label:
     def __init__(self, name, meth, fn, extra=()):
         self.name = name      # unique label, e.g. "where#local"
@@ -159,6 +167,11 @@ def families() -> dict[str, Family]:
             L("join#poolA", "join", lambda r: r.join(POOL["A"]).on_field("z")),
             L("join#poolB", "join", lambda r: r.join(POOL["B"]).on_field("z")),
             L("from_#poolC", "from_", lambda r: r.from_(POOL["C"])),
+            # the receiver itself becomes a source / operand of a NEW statement: it may be given the automatic alias (the one permitted side
+            # effect on an argument); nothing derived from it earlier may change
+            L("wrap#from", "from_", lambda r, Q=Q: Q.from_(_select_only(r)).select("*")),
+            L("wrap#join", "join", lambda r, Q=Q: Q.from_(T("wj")).join(_select_only(r)).on_field("z")),
+            L("wrap#in", "where", lambda r, Q=Q: Q.from_(T("wi")).select("z").where(T("wi").z.isin(_select_only(r)))),
         ]
         if d == "mssql":
             labels += [L("top", "top", lambda r: r.top(3)), L("fetch_next", "fetch_next", lambda r: r.fetch_next(2))]
@@ -196,6 +209,8 @@ def families() -> dict[str, Family]:
         L("except_of", "except_of", lambda r: r.except_of(Q.from_(T("t6")).select("a"))),
         L("minus", "minus", lambda r: r.minus(Q.from_(T("t7")).select("a"))),
         L("as_", "as_", lambda r: r.as_("u1")),
+        L("wrap#from", "from_", lambda r: Q.from_(r).select("*")),
+        L("wrap#join", "join", lambda r: Q.from_(T("wj")).join(r).on_field("a")),
     ])
 
     fams["create"] = Family("create", {
